@@ -307,6 +307,8 @@ class C14(core.Property):
         "interleave arbitrarily",
         "Quiesced (txn_trace_satisfies_spec*): every operation that started has completed when the schedule ends (a run that stops between "
         "the two segments of a successful commit has applied writes that the transcript does not report as committed)",
+        "NoRC (txn_trace_satisfies_spec_lsm): no transaction of the program is READ_COMMITTED (over the LSM store a READ_COMMITTED get suspended "
+        "across a commit of its key returns the old cell; the judge has no clause for such reads); cfg.wal = none, 2 ≤ max_levels",
     ]
     partial_theorems = {
         "read_regular (hypotheses, not gaps)": "read_regular / deleted_stay_deleted / scan_sorted_live are proved for the model over every schedule of "
@@ -350,7 +352,12 @@ class C14(core.Property):
                                "commit, the commit frame has b but no e, judgeTxnMode drops it (completed operations only), the TObs has commit = none, the "
                                "commit order lacks it while the final store has its writes, and judgeTxn answers txn/final/store-is-not-the-committed-writes "
                                "(when the writes are visible in keys < nkeys) — so Quiesced cannot be dropped for the final-store clause; it could be weakened "
-                               "to 'no commit frame is at .fin' (reads, writes and begins may be cut anywhere), which machFacts_of_rinv uses only in commit_ev/done_e.",
+                               "to 'no commit frame is at .fin' (reads, writes and begins may be cut anywhere), which machFacts_of_rinv uses only in commit_ev/done_e. "
+                               "UPDATE (last step): J is instantiated — SM.LM.txn_trace_satisfies_spec_lsm is PROVED: LSM tree without WAL, >= 2 levels, any "
+                               "compaction strategy and bloom table, every program with WFProg and NoRC (no READ_COMMITTED transaction), every schedule with "
+                               "SlotSeq and Quiesced, including gets suspended at page reads across other transactions' commits (side invariant LJ: store "
+                               "lsmOk between segments, every in-flight read carries RB with allowed cells SV; lj_step is obligation 3). Remaining for the LSM "
+                               "store: READ_COMMITTED readers (see above), trees with a WAL (the transaction family uses none).",
     }
 
     def generate(self, rng: random.Random, i: int, tier: str) -> dict:
@@ -550,6 +557,8 @@ THEOREMS = [
     "HappyModel.C14.SM.LM.putSync_rb",
     "HappyModel.C14.SM.LM.applyWrites_rb",
     "HappyModel.C14.SM.LM.sv_commit",
+    "HappyModel.C14.SM.LM.lj_step",
+    "HappyModel.C14.SM.LM.txn_trace_satisfies_spec_lsm",
 ]
 C14.theorems = THEOREMS
 PROPERTY = C14()
